@@ -25,7 +25,7 @@ contract(U + "BlockBase.match",
     not_assumed=["tables.nomatch.nothing_lost"],
     clause_props={"post.tables": ["C09", "C16"], "raises.*!StopIteration.tables": ["C09", "C16"], "post.scope": ["C09", "C16"], "raises.*!StopIteration.scope": ["C09", "C16"],
                   "post.end.": ["C08"], "post.names.": ["C08"], "post.labels.": ["C08"],
-                  "post.restore": ["C08", "C11", "C12", "C20"], "post.order": ["C11", "C12", "C10"]},
+                  "post.restore": ["C08", "C11", "C12", "C14", "C20"], "post.order": ["C11", "C12", "C10", "C14"]},
     bind={"SYMBOL_TABLES": "ref:SymbolTables", "di.C99Preprocessor.match_cpp_directive": "cls"},
     locals=dict(content="list[ref:Base]", classes="list[cls]", comments="list[cls]"),
     requires={
@@ -91,7 +91,7 @@ contract(U + "BlockBase.match",
         2: dict(invariant=restore_inv("_k2"), types={"obj": "ref:Base?"}, modifies=["view", "*.fifo_item"]),
         3: dict(invariant=restore_inv("_k3"), types={"obj": "ref:Base?"}, modifies=["view", "*.fifo_item"]),
     },
-    serves=["C08", "C09", "C11", "C12", "C16", "C20"],
+    serves=["C08", "C09", "C11", "C12", "C14", "C16", "C20"],
 )
 
 
